@@ -322,6 +322,18 @@ func run(ctx *Ctx) *Result {
 			res.Fail(map[string]any{"pred": "acl_not_converged", "backend": c.Backend, "final": f["impl.final"], "suppressed_move_at_remark": remarkSuppr},
 				"executing the script does not yield the target ACL: "+il, c)
 		}
+		if prop == "C14" {
+			// how often the decidable hypotheses of asa_/ios_steps_safe_partial hold on real scripts
+			for _, k := range []string{"safe.hyp", "safe.nocross", "safe.movesem", "safe.nomoves", "safe.noremark", "safe.wf"} {
+				if v, ok := f[k]; ok {
+					res.Count(c.Backend + ":" + k + "=" + v)
+				}
+			}
+			if f["safe.hyp"] == "1" && f["agree"] == "1" && (f["impl.risk"] != "none" || f["impl.exec"] != "ok") {
+				res.Disagree(c.Backend+" step safety: hypotheses of *_steps_safe_partial hold, the script is the model's, yet a step is unsafe (contradicts the theorem: model of the device or of the packets is wrong)",
+					c, "risk="+f["impl.risk"]+" exec="+f["impl.exec"], "risk=none exec=ok")
+			}
+		}
 		if prop == "C14" && f["impl.risk"] != "none" {
 			parts := strings.SplitN(f["impl.risk"], ":", 3)
 			pk, _ := strconv.Atoi(parts[1])
